@@ -184,6 +184,8 @@ class Tr:
             return None
         if ta == 'mat' and tb == 'mat':
             return f'(np_mmap2 ({f} O) {a} {b})', 'mat'
+        if ta == 'vecF' and tb == 'vecF':
+            return f'(map2 ({f} O) {a} {b})', 'vecF'
         if ta == 'col' and tb == 'row':
             return f'(np_outer ({f} O) {a} {b})', 'mat'
         if ta == 'row' and tb == 'col':
@@ -226,6 +228,15 @@ class Tr:
                     return f'(np_rowdot O {a} {b})', 'vecF'
                 if args[0].value in ('ik,jk', 'ik,jk->ij'):
                     return f'(np_matmulT O {a} {b})', 'mat'
+        if name == 'np.maximum' and len(args) == 2:
+            a, ta = self.expr(args[0], env)
+            b, tb = self.expr(args[1], env)
+            if ta == 'vecF' and tb in ('F', 'Z'):
+                return f'(map (fun x => nmax O x {self.toF(b, tb, n)}) {a})', 'vecF'
+        if name == 'stats.t.cdf' and len(args) == 2:
+            a, ta = self.expr(args[0], env)      # the distribution function of the given degrees of freedom: a section variable
+            if ta == 'vecF':
+                return f'(map cdf {a})', 'vecF'
         if name == 'np.sqrt' and len(args) == 1:
             a, ta = self.expr(args[0], env)
             if ta in ('vecF', 'col', 'row'):
@@ -695,7 +706,7 @@ From RSA Require Import Prelude Vec PyLib.
 Import ListNotations.
 Open Scope Z_scope.
 Section Gen.
-  Context {{F : Type}} (O : NumOps F) (lg : F -> F).
+  Context {{F : Type}} (O : NumOps F) (lg cdf : F -> F).
 '''
 
 
